@@ -1359,3 +1359,262 @@ theorem reparse_point (o : POpts) (f : Nat) (k : Keys) (x : Obj) (h : parsePoint
     · simp [ha] at h
 end
 end Geo
+
+namespace Geo
+
+def centreOf : Obj → Option Pos
+  | .point pos _ => some pos
+  | .spoint pos => some pos
+  | _ => none
+
+def isCircleProps (fm : List Member) : Bool :=
+  match ((JVal.obj fm).get "properties").bind (fun p => p.get "type") with
+  | some (.str _ "Circle") => true
+  | _ => false
+
+/-- the part of the Feature parser after the geometry has been parsed -/
+def featureOf (o : POpts) (k : Keys) (base : Obj) : Except PErr Obj :=
+      let ex := withMembers none k
+      let centre : Option Pos := match base with
+        | .point pos _ => some pos
+        | .spoint pos => some pos
+        | _ => none
+      match centre, ex with
+      | some c, some _ =>
+        let props := (JVal.obj k.foreign).get "properties"
+        let ptype := props.bind (fun p => p.get "type")
+        if !o.disableCircle && (match ptype with | some (.str _ "Circle") => true | _ => false) then
+          let radius := props.bind (fun p => p.get "radius")
+          let units := strOf (props.bind (fun p => p.get "radius_units"))
+          let rtexts : Option (String × String) := match radius with
+            | some (.num fin _ canon canonK _) => if fin then some (canon, canonK) else some ("null", "null")
+            | some .tru => some ("1", "1000")
+            | some (.str _ _) => none
+            | _ => some ("0", "0")
+          match rtexts with
+          | none => .error .unmodelled
+          | some (m, km) =>
+            if units == "" || units == "m" then .ok (.circle c m)
+            else if units == "km" then .ok (.circle c km)
+            else .error .circleUnits
+        else .ok (.feature base ex)
+      | _, _ => .ok (.feature base ex)
+
+theorem parseFeatureK_eq (o : POpts) (f : Nat) (k : Keys) :
+    parseFeatureK o f k =
+      match k.geometry with
+      | none => .error .geometryMissing
+      | some g =>
+        match parse o f g with
+        | .error e => .error e
+        | .ok base => featureOf o k base := rfl
+
+theorem featureOf_feature {o : POpts} {k : Keys} {base : Obj}
+    (h : centreOf base = none ∨ withMembers none k = none ∨
+      (!o.disableCircle && isCircleProps k.foreign) = false) :
+    featureOf o k base = .ok (.feature base (withMembers none k)) := by
+  unfold featureOf
+  cases hex : withMembers none k with
+  | none => cases base <;> rfl
+  | some e =>
+    cases base with
+    | point pos ex =>
+      rcases h with h | h | h
+      · cases h
+      · rw [hex] at h; cases h
+      · simp only [isCircleProps] at h
+        simp only [h, Bool.false_eq_true, if_false]
+    | spoint pos =>
+      rcases h with h | h | h
+      · cases h
+      · rw [hex] at h; cases h
+      · simp only [isCircleProps] at h
+        simp only [h, Bool.false_eq_true, if_false]
+    | _ => rfl
+
+theorem JVal.DocOK.get {v w : JVal} {key : String} (h : v.DocOK) (hg : v.get key = some w) : w.DocOK := by
+  cases v with
+  | obj ms =>
+    simp only [JVal.get, Option.map_eq_some_iff] at hg
+    obtain ⟨m, hm, rfl⟩ := hg
+    simp only [JVal.DocOK] at h
+    exact (docOKM_iff.mp h m (List.mem_of_find?_eq_some hm)).2
+  | _ => simp [JVal.get] at hg
+
+/-- a radius text is "null" or a number token -/
+theorem featureOf_cases {o : POpts} {k : Keys} {base x : Obj} (h : featureOf o k base = .ok x)
+    (hd : DocOKM k.foreign) :
+    (x = .feature base (withMembers none k) ∧ (centreOf base = none ∨ withMembers none k = none ∨
+        (!o.disableCircle && isCircleProps k.foreign) = false)) ∨
+    (∃ c m, x = .circle c m ∧ centreOf base = some c ∧ o.disableCircle = false ∧
+      (m = "null" ∨ IsNumTok m.toList)) := by
+  by_cases hc : centreOf base = none ∨ withMembers none k = none ∨
+      (!o.disableCircle && isCircleProps k.foreign) = false
+  · rw [featureOf_feature hc] at h
+    cases h
+    exact .inl ⟨rfl, hc⟩
+  · right
+    simp only [not_or] at hc
+    obtain ⟨hc1, hc2, hc3⟩ := hc
+    obtain ⟨c, hcen⟩ := Option.ne_none_iff_exists'.mp hc1
+    obtain ⟨e, hex⟩ := Option.ne_none_iff_exists'.mp hc2
+    simp only [Bool.not_eq_false, Bool.and_eq_true, Bool.not_eq_true'] at hc3
+    have hcirc := hc3.2
+    simp only [isCircleProps] at hcirc
+    -- the radius node is well-formed
+    have hrad : ∀ r, ((JVal.obj k.foreign).get "properties").bind (fun p => p.get "radius") = some r → r.DocOK := by
+      intro r hr
+      simp only [Option.bind_eq_some_iff] at hr
+      obtain ⟨p, hp, hr⟩ := hr
+      exact (JVal.DocOK.get (by simpa [JVal.DocOK] using hd) hp).get hr
+    have hred : (match ((JVal.obj k.foreign).get "properties").bind (fun p => p.get "radius") with
+            | some (.num fin _ canon canonK _) => if fin then some (canon, canonK) else some ("null", "null")
+            | some .tru => some ("1", "1000")
+            | some (.str _ _) => (none : Option (String × String))
+            | _ => some ("0", "0")) = none ∨ True := .inr trivial
+    clear hred
+    have h' : (match (match ((JVal.obj k.foreign).get "properties").bind (fun p => p.get "radius") with
+            | some (.num fin _ canon canonK _) => if fin then some (canon, canonK) else some ("null", "null")
+            | some .tru => some ("1", "1000")
+            | some (.str _ _) => (none : Option (String × String))
+            | _ => some ("0", "0")) with
+          | none => Except.error PErr.unmodelled
+          | some (m, km) =>
+            if (strOf (((JVal.obj k.foreign).get "properties").bind fun p => p.get "radius_units") == "" ||
+              strOf (((JVal.obj k.foreign).get "properties").bind fun p => p.get "radius_units") == "m") = true
+            then Except.ok (Obj.circle c m)
+            else if (strOf (((JVal.obj k.foreign).get "properties").bind fun p => p.get "radius_units") == "km") = true
+              then Except.ok (Obj.circle c km) else Except.error PErr.circleUnits) = Except.ok x := by
+      unfold featureOf at h
+      cases base with
+      | point pos ex =>
+        simp only [centreOf, Option.some.injEq] at hcen; subst hcen
+        simpa only [hex, hc3.1, hcirc, Bool.not_false, Bool.and_self, if_true] using h
+      | spoint pos =>
+        simp only [centreOf, Option.some.injEq] at hcen; subst hcen
+        simpa only [hex, hc3.1, hcirc, Bool.not_false, Bool.and_self, if_true] using h
+      | _ => simp [centreOf] at hcen
+    clear h
+    have h := h'
+    clear h'
+    generalize hr : ((JVal.obj k.foreign).get "properties").bind (fun p => p.get "radius") = rad at h hrad
+    have key : ∀ m km, (m = "null" ∨ IsNumTok m.toList) → (km = "null" ∨ IsNumTok km.toList) →
+        (if (strOf (((JVal.obj k.foreign).get "properties").bind fun p => p.get "radius_units") == "" ||
+              strOf (((JVal.obj k.foreign).get "properties").bind fun p => p.get "radius_units") == "m") = true
+          then Except.ok (Obj.circle c m)
+          else if (strOf (((JVal.obj k.foreign).get "properties").bind fun p => p.get "radius_units") == "km") = true
+            then Except.ok (Obj.circle c km) else Except.error PErr.circleUnits) = Except.ok x →
+        ∃ c' m', x = .circle c' m' ∧ some c = some c' ∧ o.disableCircle = false ∧
+          (m' = "null" ∨ IsNumTok m'.toList) := by
+      intro m km hm hkm hx
+      split at hx
+      · cases hx; exact ⟨c, m, rfl, rfl, hc3.1, hm⟩
+      · split at hx
+        · cases hx; exact ⟨c, km, rfl, rfl, hc3.1, hkm⟩
+        · cases hx
+    have tok1 : IsNumTok "1".toList := numTokB_sound (by decide)
+    have tok1000 : IsNumTok "1000".toList := numTokB_sound (by decide)
+    have tok0 : IsNumTok "0".toList := numTokB_sound (by decide)
+    rw [hcen]
+    cases rad with
+    | none => exact key "0" "0" (.inr tok0) (.inr tok0) h
+    | some r =>
+      have hrd := hrad r rfl
+      cases r with
+      | num fin val canon canonK raw =>
+        cases fin with
+        | true =>
+          simp only [JVal.DocOK] at hrd
+          exact key canon canonK (.inr (hrd.2 trivial).1) (.inr (hrd.2 trivial).2) h
+        | false => exact key "null" "null" (.inl rfl) (.inl rfl) h
+      | tru => exact key "1" "1000" (.inr tok1) (.inr tok1000) h
+      | str _ _ => simp at h
+      | null => exact key "0" "0" (.inr tok0) (.inr tok0) h
+      | fls => exact key "0" "0" (.inr tok0) (.inr tok0) h
+      | arr _ => exact key "0" "0" (.inr tok0) (.inr tok0) h
+      | obj _ => exact key "0" "0" (.inr tok0) (.inr tok0) h
+
+end Geo
+
+namespace Geo
+
+/-- the members the Feature writer emits after `"geometry"` for a parsed Feature -/
+def featFm (k : Keys) : List Member :=
+  k.foreign ++ (if needProps (withMembers none k) true then [propsM] else [])
+
+theorem needProps_feature (k : Keys) : needProps (withMembers none k) true = !k.hasProps := by
+  by_cases hf : k.foreign = []
+  · simp [withMembers, keys_members_eq hf, needProps, Keys.hasProps, hf]
+  · have hm := keys_members_ne hf
+    have hb : (k.members == "") = false := by simpa using hm
+    have hb' : (k.members != "") = true := by simpa using hm
+    simp [withMembers, hb, needProps, hb']
+
+theorem membersV_feature {k : Keys} (hd : DocOKM k.foreign) :
+    MembersV (withMembers none k) true (featFm k) := by
+  refine ⟨k.foreign, docOKM_tokOK hd, ?_, rfl⟩
+  by_cases hf : k.foreign = []
+  · simp [withMembers, keys_members_eq hf, hf]
+  · have hm := keys_members_ne hf
+    have hb : (k.members == "") = false := by simpa using hm
+    simp only [withMembers, hb, Bool.false_eq_true, if_false, hm]
+    exact ⟨hf, by simp [Keys.members, hf]⟩
+
+theorem featFm_hasProps (k : Keys) : (featFm k).any (fun m => m.2.1 == "properties") = true := by
+  unfold featFm
+  rw [needProps_feature]
+  cases hp : k.hasProps with
+  | true => simpa [Keys.hasProps] using hp
+  | false => simp [propsM, mem]
+
+end Geo
+
+namespace Geo
+section
+variable (vf : String → Rat) (kf : String → String)
+include vf kf
+
+theorem reparse_lineString (o : POpts) (f : Nat) (k : Keys) (x : Obj) (h : parseLineStringK o f k = .ok x)
+    (hc : ∀ v, k.coordinates = some v → v.DocOK) (hfd : DocOKM k.foreign)
+    (hns : ∀ m ∈ k.foreign, isSpecialKey m.2.1 = false) (hfin : AllFin x) :
+    ∃ v, Written x v ∧ ∀ g, parse o (g + 1) v = .ok x := by
+  unfold parseLineStringK at h
+  cases hco : k.coordinates with
+  | none => simp [hco, reqArray] at h
+  | some rc =>
+    simp only [hco, reqArray] at h
+    by_cases ha : rc.isArray = true
+    · simp only [ha, if_true] at h
+      cases hp : parseLineCoords rc with
+      | error e => simp [hp] at h
+      | ok res =>
+        obtain ⟨ps, ex0⟩ := res
+        simp only [hp] at h
+        by_cases hlen : ps.length < 2
+        · rw [if_pos hlen] at h; cases h
+        · rw [if_neg hlen] at h
+          by_cases hvalid : (o.requireValid && !(Obj.lineString (mkLine o ps) ps (withMembers ex0 k)).valid) = true
+          · rw [if_pos hvalid] at h; cases h
+          · rw [if_neg hvalid, Except.ok.injEq] at h
+            subst h
+            obtain ⟨hpf, hexf⟩ := hfin
+            have hex0 := ExFin_withMembers hexf
+            obtain ⟨hT, htok⟩ := parseLineCoords_fwd hp (hc rc hco) hex0
+            have hexm : exMembers' ex0 = "" := by
+              cases ex0 with
+              | none => rfl
+              | some e => exact hT.2.2.2.1
+            refine ⟨mkObj "LineString" "coordinates" (.arr (seriesNodes vf kf ex0 ps 0)) k.foreign, ?_, ?_⟩
+            · exact ⟨_, _, ⟨_, seriesV_nodes vf kf hT (extrasAt_withMembers ex0 k) ps 0
+                (fun p hp' => ⟨hpf p hp', htok p hp'⟩) (by omega), rfl⟩,
+                membersV_withMembers hexm hfd, rfl⟩
+            · intro g
+              rw [parse_mkObj_coords o g "LineString" _ _ hns, parseTyped_LineString]
+              unfold parseLineStringK
+              simp only [reqArray, JVal.isArray, if_true]
+              rw [parseLineCoords_nodes vf kf hT hpf]
+              simp only [withMembers_mk, hlen, hvalid, if_false]
+              rfl
+    · simp [ha] at h
+end
+end Geo
